@@ -9,7 +9,7 @@ from __future__ import annotations
 import random
 
 SIZES = [0, 1, 1, 2, 2, 2, 3, 3, 4, 6, None, None]
-CB_KINDS = [None, None, "s", "s", "a", "g", "sx", "ax", "gx", "sT", "sm", "am", "so", "sp", "ap", "gp", "sf"]
+CB_KINDS = [None, None, "s", "s", "a", "g", "sx", "ax", "gx", "sT", "sm", "am", "so", "sp", "ap", "gp", "sf", "ak", "gk"]
 CB_KINDS_SAFE = [None, "s", "a", "g", "sm"]
 ASH = [0, 1, 2, 3, 3, 5, 6]      # payload shapes (4 is the counting iterator of rejected requests)
 POINTS = ["ws", "we", "wc", "ecb", "ccb", "it", "fa"]
@@ -25,13 +25,13 @@ BASE_W = {
 PROFILES = {
     "C01": {"w": {"spawn": 1.6, "cancel": 1.2, "flush": 0.8, "gate_c": 3.0, "resize_idle": 6.0}, "sizes": [0, 1, 1, 2, 2, 3, 4, None]},
     "C02": {"w": {"cancel": 1.6, "cancel_group": 1.4, "flush": 1.8, "gate_x": 2.0, "gate_c": 3.0}, "cb": CB_KINDS + ["sf"]},
-    "C03": {"w": {"cancel": 1.8, "cancel_group": 1.4, "stop": 1.5, "flush": 1.2}, "cb": ["s", "a", "g", "g", "sx", "sT", None, "sm", "am", "sxm", "so", "sp", "ap", "gp", "sxo", "sf"]},
+    "C03": {"w": {"cancel": 1.8, "cancel_group": 1.4, "stop": 1.5, "flush": 1.2}, "cb": ["s", "a", "g", "g", "sx", "sT", None, "sm", "am", "sxm", "so", "sp", "ap", "gp", "sxo", "sf", "ak", "gk", "axk"]},
     "C04": {"w": {"spawn": 1.5, "lock": 3.0, "gather": 2.0, "cancel": 0.7}, "kinds": ["apply", "apply", "apply", "map"], "simple": 0.45, "named": 0.35},
     "C05": {"w": {"spawn": 1.4, "cancel": 1.4, "gate": 1.3}, "kinds": ["map", "starmap", "doublestarmap", "map", "apply"], "simple": 0.0},
     "C06": {"w": {"cancel": 5.0, "flush": 1.5, "cancel_group": 0.6}, "stubborn": 0.35},
     "C07": {"w": {"cancel_group": 4.0, "cancel_all": 3.0, "spawn": 1.4}, "simple": 0.15},
     "C08": {"w": {"gather": 6.0, "until_closed": 4.0, "cancel_group": 1.5, "spawn": 1.3}},
-    "C09": {"w": {"bad_spawn": 14.0, "lock": 5.0, "unlock": 4.0, "gather": 3.0, "spawn": 1.3}},
+    "C09": {"w": {"bad_spawn": 14.0, "lock": 5.0, "unlock": 4.0, "gather": 3.0, "spawn": 1.3}, "named": 0.4},
     "C10": {"w": {"spawn": 2.0, "cancel_group": 3.0, "cancel_all": 1.5}, "named": 0.5},
     "C11": {"w": {"spawn": 2.0, "flush": 2.0, "new_pool": 12.0, "gather": 4.0}, "pools": [1, 2, 2, 3]},
     "C12": {"w": {"gate_x": 5.0, "gate_c": 4.0, "flush": 2.5, "gather": 3.0}, "cb": [None, "s", "sx", "ax", "gx", "a", "sT"], "fail": 0.4, "endx": 0.3, "retx": 0.2, "iterx": 0.15},
@@ -70,6 +70,7 @@ class Gen:
         self.label = 0
         self.count = 0
         self.own_iter_cancel = False
+        self.followups = []
 
     # ------------------------------------------------------------------ configuration
     def make_config(self):
@@ -90,7 +91,7 @@ class Gen:
             if rng.random() < 0.12:
                 p["sub"] = 1                # a pool of a factory-made class (same __name__ as other such classes)
             if cls == "S":
-                p["fk"] = rng.choice(["sync", "sync", "plain", "pmeth", "wrap"])
+                p["fk"] = rng.choice(["sync", "sync", "plain", "pmeth", "wrap", "abc"])
                 p["fn"] = rng.randrange(3)
                 p["ash"] = rng.choice(ASH)
                 p["ecb"] = rng.choice(self.cb_kinds)
@@ -117,7 +118,7 @@ class Gen:
         rng = self.rng
         s = {"g": rng.choice([0, 1, 1, 1, 2, 3])}
         if rng.random() < self.endx:
-            s["end"] = "x"
+            s["end"] = rng.choice(["x", "x", "x", "xg", "xm"])
         elif rng.random() < self.retx:
             s["end"] = "rx"
         if rng.random() < self.stubborn:
@@ -132,6 +133,8 @@ class Gen:
             return None
         self.count += 1
         rng = self.rng
+        if self.followups:
+            return self.followups.pop(0)
         for _ in range(8):
             kinds = list(self.w)
             k = rng.choices(kinds, [self.w[x] for x in kinds])[0]
@@ -198,14 +201,14 @@ class Gen:
             return st
         kind = rng.choice(self.prof.get("kinds", ["apply", "apply", "map", "starmap", "doublestarmap"]))
         st["kind"] = kind
-        st["fk"] = rng.choice(["sync", "sync", "sync", "plain", "pmeth", "wrap"])
+        st["fk"] = rng.choice(["sync", "sync", "sync", "plain", "pmeth", "wrap", "abc"])
         st["fn"] = rng.randrange(3)
         st["ecb"] = rng.choice(self.cb_kinds)
         st["ccb"] = rng.choice(self.cb_kinds)
         st["sc"] = [self._script() for _ in range(rng.choice([1, 2, 3]))]
         if rng.random() < self.named:
             st["gn"] = rng.choice(["g1", "g2", "apply-work-group-0", "map-job-group-1", "apply-work-group-1",
-                                   "apply-job-group-1", "starmap-fetch_it-group-0", "start-group-1", "", "default"])
+                                   "apply-job-group-1", "starmap-fetch_it-group-0", "start-group-1", "", "", "default"])
         if kind == "apply":
             st["num"] = rng.choice([0, 1, 1, 2, 3, 4, 5, 8])
             st["ash"] = rng.choice(ASH)
@@ -253,6 +256,8 @@ class Gen:
                 return None
             st["p"] = pc.idx
             st["gn"] = rng.choice(list(pc.live_names))
+            if "" in pc.live_names and rng.random() < 0.5:
+                st["gn"] = ""               # the empty string is a name like any other (round 12: `name or generated`)
             return st
         if how == "state":
             cands = [pc for pc in sim.pools if pc.locked or pc.closed]
@@ -327,6 +332,16 @@ class Gen:
             return {"op": "cancel_group", "p": pc.idx, "name": rng.choice(["nope", "apply-work-group-9", "g1"])}
         live = [r for r in reqs if r.cancelled_seq is None]
         r = rng.choice(live) if live and rng.random() < 0.85 else rng.choice(reqs)
+        if pc.cls == "T" and r.cancelled_seq is None and r.gname is not None and not r.spawner_done() and rng.random() < 0.3:
+            # the cancelled group's name is taken again AT ONCE, while the old spawner has not wound down yet (whatever it
+            # cleans up by name must not hit the new group); sometimes the pool is closed while the new request is at work
+            st = self._g_spawn(sim)
+            if st is not None and st.get("kind") != "start":
+                st["p"] = pc.idx
+                st["gn"] = r.gname
+                self.followups.append(st)
+                if rng.random() < 0.5:
+                    self.followups += [{"op": "run", "n": rng.choice([1, 2, 3, 5])}, {"op": "gather", "p": pc.idx, "rex": int(rng.random() < 0.4)}]
         return {"op": "cancel_group", "p": pc.idx, "r": r.label}
 
     def _g_cancel_all(self, sim):
@@ -368,7 +383,7 @@ class PhasedGen(Gen):
     seeded order with seeded outcomes (return, raise, callback cancelled) while those calls are waiting, (5) final
     flush.  Uniform random runs reach such overlaps rarely; here every run has them."""
 
-    CBS = ["g", "g", "gx", "s", "a", "sx", "ax", None, None, "sm", "sT", "gm", "so", "gp", "ap"]
+    CBS = ["g", "g", "gx", "s", "a", "sx", "ax", None, None, "sm", "sT", "gm", "so", "gp", "ap", "gk", "ak"]
 
     def __init__(self, seed: int, prop: str, clean: bool = True):
         super().__init__(seed, prop, clean)
@@ -382,6 +397,10 @@ class PhasedGen(Gen):
         self.early = rng.choice([0.3, 0.5, 0.7])
         self.cancel_frac = rng.choice([0.0, 0.2, 0.4])
         self.mid = rng.choice([0.0, 0.1, 0.25])       # extra cancels / flushes while releasing
+        self.mid_group = 0.3
+        if prop == "C07":
+            self.mid = rng.choice([0.1, 0.25, 0.4])
+            self.mid_group = 0.7
         self.total = 0
         # several cycles on the same pool: what an earlier cycle left behind (a flush that raised, cancelled groups
         # whose names are used again, rejected requests, swallowed cancellations) is the history of the next one
@@ -402,7 +421,7 @@ class PhasedGen(Gen):
         rng = self.rng
         s = {"g": rng.choice([1, 1, 1, 2])}
         if rng.random() < 0.12:
-            s["end"] = rng.choice(["x", "x", "rx"])
+            s["end"] = rng.choice(["x", "x", "rx", "xg", "xm"])
         if rng.random() < self.stubborn:
             s["oc"] = [rng.choice(["s", "r", "x"])]
         return s
@@ -467,7 +486,7 @@ class PhasedGen(Gen):
                 self.queue.append({"op": "spawn", "p": 0, "r": self.label, "kind": "start", "num": rng.choice([1, 2, 3])})
                 continue
             kind = rng.choice(["apply", "apply", "map", "starmap"])
-            st = {"op": "spawn", "p": 0, "r": self.label, "kind": kind, "fk": rng.choice(["sync", "sync", "plain", "pmeth"]),
+            st = {"op": "spawn", "p": 0, "r": self.label, "kind": kind, "fk": rng.choice(["sync", "sync", "plain", "pmeth", "abc"]),
                   "fn": rng.randrange(3), "ecb": rng.choice(self.CBS), "ccb": rng.choice(self.CBS),
                   "sc": [self._pscript() for _ in range(rng.choice([1, 2, 3]))]}
             if kind == "apply":
@@ -544,7 +563,13 @@ class PhasedGen(Gen):
             live = [t for t in pc.tasks if t.state == "L"]
             r = rng.random()
             if r < 0.5 and live:
-                self.queue.append({"op": "cancel", "p": 0, "ids": [self._task_ref(rng.choice(live))]})
+                # (round 12: also whole groups - a group cancelled while another task is inside flush()/gather_and_close(),
+                #  its tasks still in their slow cancel callbacks when that call returns, siblings waiting for the slots)
+                t = rng.choice(live)
+                if rng.random() < self.mid_group and t.req.kind != "start":
+                    self.queue.append({"op": "cancel_group", "p": 0, "r": t.req.label})
+                else:
+                    self.queue.append({"op": "cancel", "p": 0, "ids": [self._task_ref(t)]})
             elif r < 0.8:
                 self.queue.append({"op": "flush", "p": 0, "rex": int(rng.random() < 0.5)})
             else:
